@@ -101,6 +101,7 @@ def gen_plan(seed, index, tier):
         # (a log-odds decision_function is infinite at p in {0, 1}; JSON carries them as strings)
         plan["xq"] = [[rng.choice(scores + [round(rng.random(), 3), -1e9, 1e9, 0.0, 1.0, "inf", "-inf"]), rng.randrange(m)]
                       for _ in range(nq)]
+        plan["q_labels"] = rng.choice([None, None, "series", "series_rev"])
     # history: the same estimator object was fitted on other data and asked for predictions before
     plan["prior"] = None
     if index >= 30 and rng.random() < 0.25:
@@ -188,8 +189,16 @@ def _fit_model(plan, ctx):
     est = ThresholdOptimizer(estimator=stub, constraints=plan["constraints"], objective=plan["objective"],
                              grid_size=plan["grid_size"], flip=plan["flip"], prefit=plan["prefit"],
                              predict_method=("auto" if plan["method"] != "predict" else "predict"))
-    Xq = pd.DataFrame({"score": [float(q[0]) for q in plan["xq"]]})  # float("inf") / float("-inf") for the string forms
-    kwq = {"sensitive_features": np.array([f"g{q[1]}" for q in plan["xq"]])}
+    nq_ = len(plan["xq"])
+    lab = plan.get("q_labels")  # pandas index labels at the seam: rows are matched by position, never by label
+    Xq = pd.DataFrame({"score": [float(q[0]) for q in plan["xq"]]},  # float("inf") / float("-inf") for the string forms
+                      index=[(i * 3 + 1) % nq_ if nq_ % 3 else nq_ - 1 - i for i in range(nq_)] if lab else None)
+    sfq = np.array([f"g{q[1]}" for q in plan["xq"]])
+    if lab == "series":
+        sfq = pd.Series(sfq, index=list(range(100, 100 + nq_)))
+    elif lab == "series_rev":
+        sfq = pd.Series(sfq, index=list(range(nq_))[::-1])
+    kwq = {"sensitive_features": sfq}
     if not plan["prefit"]:
         _prior_history(plan, ctx, est, Xq, kwq, int, xname="score")
     ok, ret, site = ctx.call(est.fit, X, y, sensitive_features=g)
@@ -279,7 +288,8 @@ def execute(plan, ctx):
                 perm = list(range(nq))[::-1]
                 half = perm[: max(1, nq // 2)]
                 for sel, name in ((perm, "reversed"), (half, "sub-batch")):
-                    kw2 = {"sensitive_features": kw["sensitive_features"][sel]}
+                    sf_ = kw["sensitive_features"]
+                    kw2 = {"sensitive_features": (sf_.iloc[sel] if isinstance(sf_, pd.Series) else sf_[sel])}
                     ok3, pmf3, _ = _pmf(ctx, est, Xq.iloc[sel].reset_index(drop=True), kw2)
                     if not ok3 or np.abs(np.asarray(pmf3, dtype=float)[:, 1] - p[sel]).max() > 1e-12:
                         ctx.fail("C10.pmf_batch_dependent", f"the probability of a row changes when the query batch is {name}")
@@ -314,7 +324,9 @@ def execute(plan, ctx):
             if nq >= 2:
                 Xq.iloc[:, :] = Xq.iloc[::-1].to_numpy()
                 if "sensitive_features" in kw:
-                    kw["sensitive_features"] = kw["sensitive_features"][::-1].copy()
+                    sf_ = kw["sensitive_features"]
+                    kw["sensitive_features"] = (pd.Series(sf_.to_numpy()[::-1].copy(), index=sf_.index) if isinstance(sf_, pd.Series)
+                                                else sf_[::-1].copy())
                 plan_xq_now = ctx.scratch.setdefault("xq_now", list(plan["xq"]))
                 plan_xq_now.reverse()
                 ctx.fault("query_buffer_mutated_in_place")
